@@ -32,7 +32,9 @@ class DirHandler(BaseHandler):
         self.files = []
         dirfiles = self.vfs.listdir(self.getselector())
         ignorepatt = self.config.get("handlers.dir.DirHandler", "ignorepatt")
-        for file in dirfiles:
+        # Walk the directory in name order, not in the order the operating
+        # system happens to enumerate it: subclasses collect link files here.
+        for file in sorted(dirfiles):
             if self.prep_initfiles_canaddfile(
                 ignorepatt, self.selectorbase + "/" + file, file
             ):
